@@ -100,6 +100,13 @@ func genInject(seed uint64, n int, out string) {
 		o.Line("case", fmt.Sprint(c), "inject")
 		o.Line("pod", s.name, wire.Enc(ns), wire.Enc(string(b)))
 		c++
+		if i%5 == 0 {
+			// the kube-inject call site on the same pod, bare or as the template of a Deployment in namespace ns
+			base := strings.Split(s.name, "+")[0]
+			o.Line("case", fmt.Sprint(c), "inject")
+			o.Line("kubeinject-pod", base, wire.Pick(r, []string{"pod", "deployment", "deployment"}), wire.Enc(ns), wire.Enc(string(b)))
+			c++
+		}
 	}
 }
 
